@@ -83,8 +83,27 @@ def encode(type_name, **f):
             r = g["remote"].encode("ascii")
             assert len(r) == 8
             b[143:151] = r
+    for off, val in f.get("poke", ()):
+        b[off] = val
     b[-4:] = crc.signature(bytes(b[:-4]))
     return bytes(b)
+
+
+def modelled_offsets(type_name):
+    """Byte positions that carry a modelled field (or the frame header) for this family."""
+    fam = TYPES[type_name][1]
+    pos = set(range(0, 4)) | {18, 19, 20, 40} | set(range(42, 76))
+    if fam in ("heater", "plug"):
+        pos |= set(range(76, 86)) | {133} | set(range(135, 139))
+        if fam == "heater":
+            pos |= set(range(147, 151)) | set(range(155, 159))
+    else:
+        pos |= set(range(77, 87))
+        if fam == "runner":
+            pos |= {135, 136, 137, 138}
+        else:
+            pos |= set(range(135, 141)) | set(range(143, 151))
+    return pos
 
 
 def hms(seconds):
@@ -95,6 +114,7 @@ def expected(type_name, **f):
     """What the callback's device object must report for encode(type_name, **f)."""
     g = dict(DEFAULTS)
     g.update(f)
+    g.pop("poke", None)
     code, fam = TYPES[type_name]
     nm = g["name"] if isinstance(g["name"], str) else bytes(g["name"]).decode("utf-8")
     e = {
